@@ -284,6 +284,15 @@ let handle kind a =
             ^ " closed=" ^ show_frecs crs ^ "|" ^ show_fend ce
             ^ (let (rrs, re) = sync_fasta_records_run cap { s_data = data; s_script = [] } in
                " srun=" ^ show_frecs rrs ^ "|" ^ show_fend re))
+  | "ahc" ->
+      (* args = data sizes with_pending chunk *)
+      let data = bytes_of_hex a.(0) in
+      let chunk = nat_of_int (int_of_string a.(3)) in
+      (* the declared length is not observable through the public API: bytes discarded / bytes left *)
+      let show (((st, _len), n), left) =
+        if int_of_n st = 0 then "ok/" ^ dec_of_n n ^ "/" ^ dec_of_n left else "e" ^ dec_of_n st in
+      Some ("sync=" ^ show (sync_hc_case data)
+            ^ " async=" ^ show (async_hc_case (script_codes a.(1) a.(2)) chunk data))
   | "acram" ->
       let data = bytes_of_hex a.(0) in
       let chunk = nat_of_int (int_of_string a.(3)) in
